@@ -2,9 +2,10 @@
 import json
 
 PLAN = {
-    'C01': ['harness.fe_typeargs', 'harness.c11_layout'],
-    'C02': ['harness.fe_typeargs'],
-    'C03': ['harness.fe_typeargs'],
+    'C01': ['harness.fe_typeargs', 'harness.fe_defaults', 'harness.c11_layout'],
+    'C02': ['harness.fe_typeargs', 'harness.fe_defaults'],
+    'C03': ['harness.fe_typeargs', 'harness.fe_defaults'],
+    'C10': ['harness.fe_defaults'],
     'C04': ['harness.c04_roundtrip'],
     'C05': ['harness.c04_roundtrip'],
     'C06': ['harness.c06_decoder'],
